@@ -12,11 +12,12 @@ MCNameTok == {"", "na", "nb"}
 MCSymTok == {"", "sa", "sb", "na"}      \* "na" is also a NAME: a symbol lookup may fall back to the name registry
 MCBadSyms == {"s c", "#5"}          \* a symbol with a space; a symbol that is not a string (the integer 5)
 N1 == MCNameTok \ {""}
-S1 == (MCSymTok \ {""}) \cup MCBadSyms
+MCMaybeSyms == {"s~c"}               \* a symbol with a TAB: accepted today; rejecting it would be fine too, but atomically
+S1 == (MCSymTok \ {""}) \cup MCBadSyms \cup MCMaybeSyms
 Step ==
   \/ \E k \in {"u1", "u2"}, n \in N1, s \in S1 : Declare("define", "unit", k, n, s, TRUE)
   \/ \E k \in known["unit"], n \in N1, s \in S1 : Declare("derive", "unit", k, n, s, FALSE)
-  \/ \E k \in known["unit"], n \in MCNameTok, s \in MCSymTok \cup MCBadSyms : (n # "" \/ s # "") /\ Declare("alias", "unit", k, n, s, FALSE)
+  \/ \E k \in known["unit"], n \in MCNameTok, s \in MCSymTok \cup MCBadSyms \cup MCMaybeSyms : (n # "" \/ s # "") /\ Declare("alias", "unit", k, n, s, FALSE)
   \/ "u1" \in known["unit"] /\ "sq1" \notin known["unit"] /\ Anon("unit", "sq1")
   \* a prefix is declared by constructing it with a name and/or symbol; it has one name slot, so the model declares
   \* each at most once (possibly after it came about anonymously)
